@@ -2,7 +2,11 @@ use crate::alloc::{format, Vec};
 use crate::error::MockError;
 use crate::{debug, MockFnInfo};
 
-use core::{fmt::Display, sync::atomic::AtomicUsize};
+use core::fmt::Display;
+#[cfg(not(unimock_verif))]
+use core::sync::atomic::AtomicUsize;
+#[cfg(unimock_verif)]
+use crate::verif::sync::AtomicUsize;
 
 pub(crate) struct CallCounter {
     actual_count: AtomicUsize,
